@@ -123,14 +123,15 @@ def build(G, srname, names="str", pre=None, late=0, early=None):
 
 CFG_PRE = ("agenda", "treesum", "naive", "trim", "cotrim", "cnf", "prefix_grammar", "rhs", "call", "nullaryremove",
            "unaryremove", "unarycycleremove", "derivative", "materialize", "renumber", "binarize", "agenda_maxiter",
-           "treesum_maxiter")
+           "treesum_maxiter", "treesum_tol", "agenda_tol")
 
 
 def safe_pre(srn, shape):
     """Preludes that terminate: total-weight evaluations only where the total weight is finite."""
     if srn in ("Sat3", "Sat2", "Bool") or shape == "acyclic":
         return CFG_PRE
-    return tuple(x for x in CFG_PRE if x not in ("agenda", "treesum", "naive", "agenda_maxiter", "treesum_maxiter"))
+    return tuple(x for x in CFG_PRE if x not in ("agenda", "treesum", "naive", "agenda_maxiter", "treesum_maxiter",
+                                                 "treesum_tol", "agenda_tol"))
 
 
 def warm_cfg(g, pre):
@@ -145,6 +146,10 @@ def warm_cfg(g, pre):
             g.treesum()
         elif name == "treesum_maxiter":
             g.treesum(maxiter=2)
+        elif name == "treesum_tol":
+            g.treesum(tol=0.05)
+        elif name == "agenda_tol":
+            g.agenda(tol=0.3)
         elif name == "naive":
             g.naive_bottom_up()
         elif name == "call":
